@@ -70,24 +70,24 @@ def _premise_args_fresh_ranges(ctx, f):
 
 
 REASONED = {
-    ('formulas/cell.py::RangesAssembler.__call__', 'self'): (
+    ('formulas/cell.py::RangesAssembler.__call__', 0): (
         ('_[_]',), None,
         'memoises index tuples derived only from the immutable range geometry '
         '(idempotent: `ists[n] = _get_indices_intersection(base, v)`)'),
-    ('formulas/cell.py::InvRangesAssembler.__call__', 'dsp'): (
+    ('formulas/cell.py::InvRangesAssembler.__call__', 2): (
         ('_[_]',), None,
         'writes the *current* solution only (dsp.solution), which every '
         'dispatch rebuilds'),
-    ('formulas/ranges.py::Ranges.value', 'self'): (
+    ('formulas/ranges.py::Ranges.value', 0): (
         ('self._value',), None,
         'memoises the computed value in self._value; C07.cache checks every '
         'writer of ranges/values resets it'),
-    ('formulas/cell.py::Cell._args', 'args'): (
+    ('formulas/cell.py::Cell._args', '*'): (
         ('_[_].values',), _premise_args_fresh_ranges,
         'alias through `inputs[k] = v` (reference inputs) followed by '
         '`inputs[k].values.update` is infeasible: a key bound to a reference '
         'appears in exactly one link'),
-    ('formulas/cell.py::Cell._args', 'self'): (
+    ('formulas/cell.py::Cell._args', 0): (
         ('_[_].values',), _premise_args_fresh_ranges,
         'the `Ranges(r.ranges) or r` idiom: the fresh Ranges has its own '
         'values dict; the `or r` branch (value-less reference) has no .values'),
@@ -170,7 +170,8 @@ def entry_functions(ctx):
               '_assemble_values', '_reshape_array_as_excel'):
         f = p.try_func('formulas/ranges.py', q)
         if q == '_assemble_values':
-            add(f, 'range helper', fresh=['out'])
+            # its third parameter (`out`) is the array being assembled
+            add(f, 'range helper', fresh=f.params[2:3] if f else [])
         else:
             add(f, 'range operator / value')
     return out
@@ -207,8 +208,12 @@ def rule_nomut(ctx, prop='C07', rule='C07.nomut', only=None, floor=150):
         for prm, w in s.mutates.items():
             if prm in fresh or prm.startswith('^'):
                 continue
-            if (f.fq, prm) in REASONED:
-                targets, premise, why = REASONED[(f.fq, prm)]
+            # reasoned exceptions are keyed by the position of the parameter
+            # ('*' = the *args parameter), not by its name
+            pos = f.params.index(prm) if prm in f.params else (
+                '*' if prm == f.vararg else None)
+            if (f.fq, pos) in REASONED:
+                targets, premise, why = REASONED[(f.fq, pos)]
                 ws = [x for x in s.writes if prm in x.params]
                 # the reasoned write itself, in f or in a private helper f
                 # delegates that part to
